@@ -20,7 +20,6 @@ Open Scope Z_scope.
 
 Inductive rkind :=
 | RPushOverflow      (* putBack on a full push-back stack: Stack.AddValue panics *)
-| RCollator          (* the Set constructor's collator panicked (depth limit) *)
 | RStarved           (* getNextToken with nothing left: RemoveHead would block forever *)
 | RUnknownType.      (* "Found an unknown collection type" *)
 
@@ -393,7 +392,7 @@ Definition parse_collection_body (fuel : nat) (s : pstate) : pres val :=
       match build context items with
       | BVal v => Yes v tyt s2
       | BNotAssociations => Stop (PSyntax tyt)
-      | BCollator => Stop (PRuntime RCollator)
+      | BCollator => Stop (PSyntax tyt)        (* fix 37: the Set constructor's panic is a diagnostic at the type token *)
       | BUnknown => Stop (PRuntime RUnknownType)
       end
     end
